@@ -1,6 +1,7 @@
 import PySMT.Proofs.C03Create
 import PySMT.Proofs.C03Raw
 import PySMT.Proofs.C03Mk
+import PySMT.Proofs.C03Bridge
 /-!
 # C03 — every formula that exists is well-typed; ill-typed applications are rejected
 
@@ -28,7 +29,10 @@ SMT-LIB sorting discipline (Spec/HasType.lean); `CreateNode` models `create_node
   shape through a direct `create_node`.
 * `constructors_well_typed_partial` : the property's first sentence for the public constructors
   of `Impl/Mk.lean` (`C03.Built`, 90 rules) — `wt`, outside F06, well-sorted with the reported
-  type; `create_preserves_good` is the generic step.
+  type; `create_preserves_good` is the generic step; `pow_step_partial` the symbolic `Pow`.
+* `built_wf`, `built_normal`, `built_constKeys` : the bridge — the structural hypotheses of
+  C01/C02/C05/C10's semantic theorems hold of everything the constructors build
+  (`Props/Bridge.lean` instantiates the clients' headline theorems).
 * `typeOfNode_is_checker_on_arity`, `typeOf_is_checker_on_arity` : the model boundary as a
   theorem — `typeOfNode` is the real checker's rule (`CreateNode.pyNode`) on every node of the
   operator's arity; off the arity they differ and grid A compares with `pyNode` exactly.
@@ -129,25 +133,41 @@ theorem createNode_accepts_partial (s : Mgr) (op : Op) (args : List Term) (p : P
 plain symbols by calls of the public constructors modelled in `Impl/Mk.lean` (`C03.Built`: one
 rule per constructor — the rules are the list of constructors covered) is accepted by the checker
 at every node, lies outside the holes of F06, and is well-sorted with the reported type.
-`_partial`: (1) `Built` carries three side conditions `Mk` does not enforce itself — quantifier
-binders are plain symbols (the repaired code enforces it, f0cd2ee; `Mk`/`typeOfNode` ignore the
-binder list), `Function(f, [])` names a constant, `Pow` has a numeric base (known finding F06e);
-(2) not covered: `BV` given as a string (`Mk.BVStr`), the infix layer (`Mk.Infix`), `wf`/`normal`
-of C01/C05 (`noF06` is the C03 counterpart; the bridge `wt ∧ noF06 → wf` is not proved). -/
+`_partial`: (1) `Built` carries side conditions `Mk` does not enforce itself — quantifier binders
+are plain symbols (the repaired code enforces it, f0cd2ee; `Mk`/`typeOfNode` ignore the binder
+list), `Function(f, [])` names a constant, the assignments of `Array` are a dictionary (pairwise
+distinct keys: Python passes a `dict`, `Mk` a list) with constant keys; (2) `Pow` is covered only
+where it folds two constants — a symbolic `Pow` creates a `pow` node (no semantics, outside `wf`):
+single-step statement `pow_step_partial` below, on a numeric base (F06e); (3) not covered: `BV`
+given as a string (`Mk.BVStr`), the infix layer (`Mk.Infix`). -/
 theorem constructors_well_typed_partial (t : Term) (h : Built t) :
     t.wt = true ∧ t.noF06 = true ∧ ∃ τ, t.typeOf = some τ ∧ HasType t τ := by
-  obtain ⟨hw, hn⟩ := built_good h
+  obtain ⟨hw, hn, _⟩ := built_good h
   obtain ⟨τ, hτ⟩ := Option.isSome_iff_exists.1 (wt_typeOf_isSome t hw)
   exact ⟨hw, hn, τ, hτ, typeOf_sound_partial t τ hn hw hτ⟩
 
-/-- The generic step: a node `Mk.create` (= `create_node`) returns over arguments that are
-accepted and outside F06 is accepted and outside F06 as soon as the node itself is outside the
-holes (`nodeOk`: arity, payload shape, `Pow` sorts). -/
+/-- a symbolic `Pow` on a numeric base over constructor-built arguments is accepted and outside F06 -/
+theorem pow_step_partial (b e t : Term) (h : Mk.Pow b e = .ok t) (hb : Built b) (he : Built e)
+    (hnum : b.typeOf = some .int ∨ b.typeOf = some .real) : t.wt = true ∧ t.noF06 = true :=
+  Pow_step_partial h (built_good hb) (built_good he) hnum
+
+/-- **The bridge to C01/C02/C05/C10.** What the constructors build is well-formed
+(`Impl/WF.lean: Term.wf`), in the manager's normal form (`Impl/SubstBuild.lean: Build.normal`) and has
+constant array-value keys (`Proofs/C05Sem.lean: Subst.ConstKeys`) — the three structural hypotheses
+the semantic theorems of the other properties assume. `Props/Bridge.lean` instantiates one
+headline theorem of each client on `Built` terms. -/
+theorem built_wf (t : Term) (h : Built t) : t.wf = true := C03.wf_of_built h
+theorem built_normal (t : Term) (h : Built t) : Build.normal t = true := C03.normal_of_built h
+theorem built_constKeys (t : Term) (h : Built t) : Subst.ConstKeys t = true := C03.constKeys_of_built h
+
+/-- The generic step: a node `Mk.create` (= `create_node`) returns over `Good` arguments
+(`wt`, outside F06, of the constructors' shape `allE`) is `Good` as soon as the node itself is
+outside the holes (`nodeOk`: arity, payload shape, `Pow` sorts) and of that shape (`nodeE`). -/
 theorem create_preserves_good (op : Op) (args : List Term) (p : Payload) (t : Term)
-    (h : Mk.create op args p = .ok t) (hargs : ∀ a ∈ args, a.wt = true ∧ a.noF06 = true)
-    (hok : ∀ σs : List Ty, σs.length = args.length → args.map Term.typeOf = σs.map some → nodeOk op p σs = true) :
-    t.wt = true ∧ t.noF06 = true :=
-  create_good h hargs hok
+    (h : Mk.create op args p = .ok t) (hargs : ∀ a ∈ args, Good a)
+    (hok : ∀ σs : List Ty, σs.length = args.length → args.map Term.typeOf = σs.map some → nodeOk op p σs = true)
+    (hE : nodeE op p args = true) : Good t :=
+  create_good h hargs hok hE
 
 /-- **Model boundary as a theorem.** `CreateNode.pyNode` transcribes `SimpleTypeChecker` on raw
 nodes of *any* number of arguments (extra arguments ignored, `IndexError` on none, dangling array
